@@ -249,7 +249,8 @@ NAMESPACE_CONTEXTS = ["name {w}", "resname {w}", "segname {w}", "element {w}", "
                       "not name {w}", "protein and name {w}", "segment_id {w} or water", "name lt {w}", "resid {w}", "{w} and water"]
 NUM_LITS = ["0", "1", "2", "3", "5", "7", "10", "12", "0.5", "1.5", "2.", ".5", "12.5", "14", "16", "1.0", "00", "40.078"]
 PATTERNS = ["C.*", "C", "[CN]A?", "H[0-9]", "(C|N|O)", ".", "[A-C]+", "O.?", "[^C].*", "A|G", "H.*1", "(CA|CB)", "S.+",
-            "HO*H", "X?", ".."]
+            "HO*H", "X?", "..", "^C", "C$", "^CA$", "^(ALA|GLY)$", "H\\d", "H\\d+$", "\\w+", "\\w{2}$", "C{1,2}$", "[A-Z]{3}", "O\\S?$",
+            "\\D+$", "C{2,}", ".{,2}$", "^.$|^H", "H\\\\d", "\\.", "C\\*"]
 SYMBOLIC = set("()") | {"<", "==", "<=", "!=", ">=", ">", "&&", "||", "!", "=~"}
 
 
@@ -766,6 +767,15 @@ def run_cases(ctx, topo_specs, cases, sentinel=True):
             elif c.get("malformed") and c["stream"] == "malformed" and outs[i][0] != "rejected":
                 fail("malformed", "malformed expression accepted (%s)" % c["malformed"], i, "rejected",
                      {"kind": "malformed_accepted", "class": c["malformed"]})
+    # the static check of coq/Select/Types.v: a predicate it accepts can never raise TypeError
+    n_wt = sum(1 for i in compared if codes.get(i, 0) & 64)
+    ctx.notes["coverage_extra"]["static_check"] = {
+        "well_typed_cases": n_wt, "typeerror_cases": sum(1 for i in compared if outs[i][0] == "typeerror"),
+        "typeerror_cases_rejected_by_the_check": sum(1 for i in compared if outs[i][0] == "typeerror" and not codes.get(i, 0) & 64)}
+    for i in compared:
+        if codes.get(i, 0) & 64 and outs[i][0] == "typeerror":
+            fail("static", "evaluation raised TypeError on a predicate the static check accepts (Typing.well_typed_no_type_error)",
+                 i, "no TypeError", {"kind": "typeerror_on_well_typed"})
     # strings that are malformed by construction (mutated expressions, lexically odd tokens): whenever the model
     # rejects them, or has no answer because they leave its alphabet, the implementation must raise
     accepted_as_found = {}
